@@ -240,8 +240,8 @@ pub fn run(ctx: &Ctx) -> Report
     let mut rep = Report::new("fault_enumeration",
         "scenario = graph x prior history x final operation (build, goal build, clean), all commands succeeding; the final operation is run once uncrashed to learn \
          its mutation sequence (every create, write, rename, chmod, mkdir inside ruler and inside commands), then re-run from the same forked state and killed before \
-         EVERY mutation k in 0..=M and, for each write, after 1, n/2 and n-1 bytes (every byte count for writes <=128 bytes in the thorough tier; sampled non-serial \
-         schedules in the thorough tier). At the frozen instant: cache content-addressed, nothing lost; then a fresh build must succeed, satisfy C01, and a second build \
+         EVERY mutation k in 0..=M and, for each write, after 1, n/2 and n-1 bytes (every byte count for writes <=128 bytes in the thorough tier); a third of the scenarios run \
+         the crashed operation under a seeded random-walk schedule instead of the serial one. At the frozen instant: cache content-addressed, nothing lost; then a fresh build must succeed, satisfy C01, and a second build \
          must run nothing. Non-trivial crash point = strictly inside the operation and after the first mutation of user-visible data or a state file; distinct by \
          (case hash, k, torn length)");
     rep.assume("completed file-system operations are durable and ordered (no write-back reordering); rename is atomic");
@@ -249,7 +249,7 @@ pub fn run(ctx: &Ctx) -> Report
     rep.assume("content is exempt from the no-loss rule at the kill instant when every place it sat (followed through ruler's own renames) is a path the killed command itself was rewriting: by determinism the command was about to write the same bytes");
     let thorough = ctx.tier == Tier::Thorough;
     let (cases, max_rules) = ctx.tier.pick((2500u32, 5usize), (15000, 8));
-    rep.absorb(drive::drive(ctx, 11, cases, || strategy(max_rules, thorough), |c, st| test_case(thorough, c, st)));
+    rep.absorb(drive::drive(ctx, 11, cases, || strategy(max_rules, true), |c, st| test_case(thorough, c, st)));
     rep
 }
 
